@@ -482,11 +482,15 @@ func (cs *chargingStation) SendRequest(request ocpp.Request) (ocpp.Response, err
 	if err != nil {
 		return nil, err
 	}
-	asyncResult, ok := <-asyncResponseC
-	if !ok {
-		return nil, fmt.Errorf("internal error while receiving result for %v request", request.GetFeatureName())
+	select {
+	case asyncResult, ok := <-asyncResponseC:
+		if !ok {
+			return nil, fmt.Errorf("internal error while receiving result for %v request", request.GetFeatureName())
+		}
+		return asyncResult.r, asyncResult.e
+	case <-cs.stopC:
+		return nil, fmt.Errorf("client stopped while waiting for response to %v", request.GetFeatureName())
 	}
-	return asyncResult.r, asyncResult.e
 }
 
 func (cs *chargingStation) SendRequestAsync(request ocpp.Request, callback func(response ocpp.Response, err error)) error {
@@ -550,7 +554,19 @@ func (cs *chargingStation) asyncCallbackHandler() {
 				cs.error(fmt.Errorf("no callback available for incoming error %w", protoError))
 			}
 		case <-cs.stopC:
+			// Handler stopped, cleanup callbacks.
+			// No callback invocation, since the user manually stopped the client.
+			cs.clearCallbacks(false)
 			return
+		}
+	}
+}
+
+func (cs *chargingStation) clearCallbacks(invokeCallback bool) {
+	for cb, ok := cs.callbacks.Dequeue("main"); ok; cb, ok = cs.callbacks.Dequeue("main") {
+		if invokeCallback {
+			err := ocpp.NewError(ocppj.GenericError, "client stopped, no response received from server", "")
+			cb(nil, err)
 		}
 	}
 }
@@ -613,6 +629,7 @@ func (cs *chargingStation) StartWithRetries(csmsUrl string) {
 
 func (cs *chargingStation) Stop() {
 	cs.client.Stop()
+	close(cs.stopC)
 }
 
 func (cs *chargingStation) IsConnected() bool {
